@@ -30,6 +30,10 @@ LEVEL_NOTE = (
     'D45 (time of day in datetime_to_number), D1803 (30/360 on 28 February), D1804 (basis 1 is AFB, not Excel). '
     'Fixed in /repo and guarded by this check: D44, D46/D56, D47, D48, D1801, D1802, D1805.')
 DESIGN_REF = '§4 C18'
+
+# theorems of the integrated pipeline model (Props/X01.lean) that carry this property's theorems to formula TEXTS in a
+# compiled workbook; re-built and audited with this check (harness/common.prepare: soft obligations)
+TRANSPORT = ('XlVerif.Props.X01', ['X01_DATE_inverse'])
 EXTRA_EXTRACTORS = ('c18_date',)
 
 TRUSTED = [
